@@ -12,7 +12,7 @@ import ast
 
 from ..core import rule
 from ..model import AnalysisError
-from ..norm import Norm, expected
+from ..norm import Norm, expected, value_cases
 from ..poly import Poly
 from ..paths import walk_no_nested
 from ..loops import loop_context, loop_var, classify_iter
@@ -202,13 +202,19 @@ def r01_2(ctx):
     ok = isinstance(e, ast.Name)
     if ok:
         sc = ctx.scope(g)
-        ds = [d for d in sc.defs.get(e.id, []) if d.kind == "assign"]
-        vals = sorted(ast.unparse(d.value) for d in ds)
-        ok = len(ds) == 2 and "self.t" in vals and any("MX.sym" in v for v in vals)
-        for d in ds:
-            if "MX.sym" in ast.unparse(d.value):
-                gs = [(ng.key(t), p) for t, p in sc.guards(d.stmt)]
-                ok = ok and len(gs) == 1 and "depends_on" in gs[0][0] and gs[0][1] is True and gs[0][0].startswith("not(")
+        # canonical form: t = <dummy> if not depends_on(<model>, self.t) else self.t
+        cases = value_cases(sc, e.id, key=ng.key)
+        ok = len(cases) == 2
+        for conds, leaf in cases:
+            pos = len(conds) == 1 and "depends_on" in conds[0][0] and "self.t" in conds[0][0]
+            if not pos:
+                ok = False
+                continue
+            independent = (conds[0][0].startswith("not(") and conds[0][1]) or (not conds[0][0].startswith("not(") and not conds[0][1])
+            if independent:
+                ok = ok and "MX.sym" in ast.unparse(leaf)
+            else:
+                ok = ok and ast.unparse(leaf) == "self.t"
     ctx.check(ok, "_diffeq input t0", detail="absolute time of the step", expected="self.t (a dummy symbol only when the model does not depend on time)", found=ast.unparse(e) if e is not None else None, fi=g)
     sc = ctx.scope(g)
 
